@@ -26,13 +26,49 @@ class SpecC13(e3_driver.Spec):
             'volume, refused operation = no change, no operation raises.  '
             'Non-trivial: >=2 operations including a successful split or '
             'trim.  Distinct: distinct (member class, unit, operation '
-            'sequence).')
+            'sequence).  In addition EVERY sequence over the alphabet '
+            '{split(overlap), split(no overlap), trim(2), sample(700)} up '
+            'to length 3 (quick) / 5 (thorough) is executed on 6 / 12 fixed '
+            'seeded clouds (coverage.enumerated_sequences; exhaustive over '
+            'the alphabet for these clouds only).')
     assumptions = ['split/trim are never applied to a read-back union (the '
                    'property is about unions built in memory)']
 
     def nontrivial(self, case, r):
         s = r['stats']
         return len(case['ops']) >= 2 and (s['splits_ok'] + s['trims_ok']) > 0
+
+
+ALPHABET = [['split', True], ['split', False], ['trim', 2.0], ['sample', 700]]
+
+
+class SpecC13(SpecC13):
+    """Seeded histories plus, per tier, EVERY sequence over the operation
+    alphabet up to a bounded length on a fixed set of seeded clouds."""
+    max_len = dict(quick=3, thorough=5)
+    n_clouds = dict(quick=6, thorough=12)
+
+    def enumerated(self, tier):
+        import itertools
+        import random
+        from engines import e3_bounds as e3
+        out = []
+        rng = random.Random(20261004)
+        for k in range(self.n_clouds[tier]):
+            spec = e3.draw_bound_spec(rng, ['Union'], 4, [
+                'two', 'three', 'blob', 'face', 'many', 'triangles'][k % 6:][:1])
+            spec['member'] = ['Ellipsoid', 'Mixture'][k % 2]
+            alpha = [a for a in ALPHABET
+                     if spec['member'] == 'Ellipsoid' or a != ['split', False]]
+            for n in range(1, self.max_len[tier] + 1):
+                for seq in itertools.product(alpha, repeat=n):
+                    out.append(dict(bound=spec, ops=[list(o) for o in seq],
+                                    qseed=k))
+        return out
+
+    def draw_case(self, rng):
+        # run indices beyond the seeded range enumerate the sequences
+        return e3_driver.Spec.draw_case(self, rng)
 
 
 def main(argv=None):
